@@ -559,6 +559,44 @@ WORLDS = {
         ("submit", "n0"), ("hb", "n0"),
         ("keeponly", ("AppendEntriesResponse", "n1", "n0"), ("AppendEntries", "n0", "n3"))],
         timeouts=1, max_term=4, hbs=0, max_msgs=6, futures=False),
+    # four nodes (quorum must be 3): n0 and n1 both campaign for term 1 and a 2/2 message-loss split
+    # {n0,n2} | {n1,n3} leaves only the requests inside each half in flight
+    "split4": dict(n=4, prefix=[("timeout", "n0"), ("timeout", "n1"),
+                                ("keeponly", ("RequestVote", "n0", "n2"), ("RequestVote", "n1", "n3"))],
+                   timeouts=1, max_term=2, hbs=0, max_msgs=6),
+    # four nodes, replication/commit step: n0 leads term 1 (everybody acknowledged), holds c0 nobody else has
+    "repl4": dict(n=4, prefix=[("timeout", "n0"), ("msg", "RequestVote", "n0", "n1"), ("msg", "RequestVote", "n0", "n2"),
+                               ("msg", "RequestVote", "n0", "n3"), ("msg", "VoteResponse", "n1", "n0"),
+                               ("msg", "VoteResponse", "n2", "n0"), ("msg", "VoteResponse", "n3", "n0"), ("drain",),
+                               ("submit", "n0")],
+                  timeouts=1, max_term=2, hbs=1, max_msgs=5),
+    # five nodes, the same node leads twice with a foreign leader in between: n0 led term 1 with [c0,c1] and n1
+    # ACKNOWLEDGED both (no commit: 2 of 5); n2 won term 2 (n3, n4), wrote c2 and overwrote n0's and n1's logs;
+    # n0 won term 3 (n2, n3, n4) while n1 was unreachable, accepted c3 and sent a heartbeat of which only the copy
+    # for n3 survives
+    "releader5": dict(n=5, prefix=[
+        ("timeout", "n0"), ("msg", "RequestVote", "n0", "n1"), ("msg", "RequestVote", "n0", "n2"),
+        ("msg", "VoteResponse", "n1", "n0"), ("msg", "VoteResponse", "n2", "n0"), ("drop",),
+        ("submit", "n0"), ("submit", "n0"), ("hb", "n0"), ("msg", "AppendEntries", "n0", "n1"),
+        ("msg", "AppendEntriesResponse", "n1", "n0"), ("drop",),
+        ("timeout", "n2"), ("msg", "RequestVote", "n2", "n3"), ("msg", "RequestVote", "n2", "n4"),
+        ("msg", "VoteResponse", "n3", "n2"), ("msg", "VoteResponse", "n4", "n2"), ("drop",),
+        ("submit", "n2"), ("hb", "n2"), ("msg", "AppendEntries", "n2", "n0"), ("msg", "AppendEntries", "n2", "n1"),
+        ("drop",),
+        ("timeout", "n0"), ("msg", "RequestVote", "n0", "n2"), ("msg", "RequestVote", "n0", "n3"),
+        ("msg", "RequestVote", "n0", "n4"), ("msg", "VoteResponse", "n3", "n0"), ("msg", "VoteResponse", "n4", "n0"),
+        ("drop",),
+        ("submit", "n0"), ("hb", "n0"), ("keeponly", ("AppendEntries", "n0", "n3"))],
+        timeouts=1, max_term=4, hbs=0, max_msgs=5, futures=False),
+    # divergent logs: n0 led term 1 and kept appending (c0,c1 uncommitted, cut off); n1 won term 2 with n2's vote
+    # and committed c2 on {n1,n2}; n0 has heard of term 2 (follower, log still [c0,c1]); n1's AppendEntries carrying
+    # c2 to n0 is still in flight.  Longer-older-term log versus shorter-newer-term log holding a committed entry.
+    "diverge": dict(prefix=ELECT_N0 + [("submit", "n0"), ("submit", "n0"), ("timeout", "n1"),
+                                       ("msg", "RequestVote", "n1", "n2"), ("msg", "VoteResponse", "n2", "n1"),
+                                       ("msg", "AppendEntries", "n1", "n0"), ("drop",),
+                                       ("submit", "n1"), ("hb", "n1"), ("msg", "AppendEntries", "n1", "n2"),
+                                       ("msg", "AppendEntriesResponse", "n2", "n1")],
+                    timeouts=2, max_term=4, hbs=1, max_msgs=5),
     # crash / restart of any node anywhere during replication and during a leader change
     "crash-repl": dict(prefix=ELECT_N0, submits=1, hbs=2, crashes=1, timeouts=1, max_term=2, max_msgs=5),
     "crash-change": dict(prefix=ELECT_N0 + [("submit", "n0")], timeouts=2, max_term=3, hbs=1, crashes=1, max_msgs=4),
